@@ -5,7 +5,7 @@ who-may-use rule on the manifest key, and a buffer-restore rule for failed flush
 """
 import re
 from .facts import callee, op_place
-from .lib import src_of_operand, src_of_place, is_callee, all_paths_hit, TRANSPARENT
+from .lib import src_of_operand, src_of_place, is_callee, all_paths_hit, TRANSPARENT, switch_info
 from . import lib2
 
 STORE_PUT = r"object_store::ObjectStore>::put$"
@@ -48,6 +48,7 @@ def run(ck, ctx):
     ck.nd("enumeration of crash points with partial writes (needs the simulated store's semantics at run time)")
     ck.nd("that the saved manifest's contents list exactly the surviving objects (value-level)")
     ck.rule("R12.8", WRITER_TEXT)
+    ck.rule("R12.11", IDS_TEXT)
     ck.rule("R12.9", "compaction unlists exactly what it folded: manifest entries are dropped by membership in the list of segments whose deltas "
                      "went into the output, never by an ordering test on ids (the folded set is not a prefix: large and unreadable segments are "
                      "skipped) - a confirmed segment that is unlisted without having been folded is lost to recovery (shared with C13 R13.6)")
@@ -67,6 +68,7 @@ def run(ck, ctx):
         _r126(ck, prog, fns, cfg)
         _r127(ck, prog, fns, cfg)
         writer_rule(ck, prog, cfg, "R12.8")
+        ids_rule(ck, prog, cfg, "R12.11")
         from . import c13 as _c13
         from .core import Only as _Only
         _c13._rules(_Only(ck, {"R13.6": "R12.9", "R13.1": "R12.10"}, skip_keys=("R13.1:compact:fold-operator",)), prog, cfg)
@@ -612,3 +614,58 @@ def writer_rule(ck, prog, cfg, rid):
 def _self_field_arg(f, operand):
     s = src_of_operand(f, operand, through_calls=TRANSPARENT + (r"Deref>::deref$", r"DerefMut>::deref_mut$"))
     return s.fields[0] if s.kind == "path" and s.root == "self" and s.fields else None
+
+
+# ------------------------------------------------------------------------------------------------
+IDS_TEXT = ("segment ids are never handed out twice: every store to Manifest.next_segment_id is `old next_segment_id + c` (c >= 1), or the raise "
+            "`id + 1` behind the test `id >= next_segment_id` (add_segment) - never a value recomputed from the segments that happen to be "
+            "listed (when compaction empties the list the counter would fall back to 0: new segments then get ids at or below the "
+            "checkpoint's last_segment_id, recovery skips them as covered, and a re-used id overwrites a listed object)")
+MANIFEST_TY = "streaming::manifest::Manifest"
+
+
+def ids_rule(ck, prog, cfg, rid):
+    n = 0
+    for fn in prog.lib_fns():
+        if "::tests::" in fn.id or fn.file.endswith("_dst.rs"):
+            continue
+        k = 0
+        for b, i, st in fn.stmts():
+            lhs = st["lhs"]
+            pr = lhs.get("p", [])
+            fs = [e for e in pr if isinstance(e, dict) and "f" in e]
+            if not fs or pr[-1] is not fs[-1] or fs[-1]["f"] != "next_segment_id" or fs[-1].get("o") != MANIFEST_TY:
+                continue
+            n += 1
+            rv = st["rv"]
+            ok = False
+            why = "is not an increment of the previous counter"
+            if rv["k"] == "bin" and rv["op"].startswith("Add"):
+                c = (rv["b"].get("c") or "").replace("const ", "")
+                pos = c.endswith("_u64") and c.split("_")[0].isdigit() and int(c.split("_")[0]) >= 1
+                base = src_of_operand(fn, rv["a"], through_calls=TRANSPARENT)
+                if pos and base.kind in ("path", "call") and base.fields[-1:] == ("next_segment_id",):
+                    ok = True
+                elif pos and base.kind in ("path", "call") and base.fields[-1:] == ("id",):
+                    # the raise in add_segment: guarded by `id >= self.next_segment_id`
+                    for sb, _ in lib2.controlling_switches(fn, b):
+                        si = switch_info(fn, sb)
+                        src = si["src"] if si else None
+                        if src is not None and src.kind == "rv" and src.rv["k"] == "bin" and src.rv["op"] in ("Ge", "Gt"):
+                            o2 = src_of_operand(fn, src.rv["b"], through_calls=TRANSPARENT)
+                            o1 = src_of_operand(fn, src.rv["a"], through_calls=TRANSPARENT)
+                            if o2.fields[-1:] == ("next_segment_id",) and o1.fields[-1:] == ("id",):
+                                ok = True
+                    why = "raises the counter to id + 1 without the guard `id >= next_segment_id`"
+                elif not pos:
+                    why = "adds %s" % (c or "a variable")
+                else:
+                    why = "is computed from %s, not from the previous counter" % base.path()[-60:]
+            elif rv["k"] == "use":
+                why = "is overwritten with %s" % src_of_operand(fn, rv["a"], through_calls=TRANSPARENT).path()[-70:]
+            ck.check(ok, rid, "%s:store-next_segment_id#%d%s" % (fn.id.replace("streaming::", ""), k, _tag(cfg)),
+                     "Manifest.next_segment_id %s: the id counter can move backwards, so a later flush or compaction is given an id that was "
+                     "already used (its object is overwritten) or that lies at or below the checkpoint's covered range (recovery skips it)" % why,
+                     fn.where(st["ln"]), detail="monotone store")
+            k += 1
+    ck.floor(rid + _tag(cfg), n, 3)
